@@ -416,10 +416,10 @@ package xsync
 //@   reenters mapInv(m)
 //@   iterates f over view(m)
 //@   modifies allmem, allghost
-//@   loop rangeindex.loop.0: invariant outer: nheld() == 0 && wfslice(bentries) && len(bentries) == 0
-//@   loop for.body: invariant cursor: b != nil && rootb != nil && holds(addr(rootb.topHashMutex)) && wfslice(bentries)
-//@   loop for.loop: invariant idx: 0 <= i && i <= 3 && b != nil && rootb != nil && holds(addr(rootb.topHashMutex)) && wfslice(bentries)
-//@   loop rangeindex.loop.1: invariant inner: nheld() == 0 && wfslice(bentries)
+//@   loop rangeindex.loop.0: invariant outer: mapInv(m) && nheld() == 0 && wfslice(bentries) && len(bentries) == 0
+//@   loop for.body: invariant cursor: mapInv(m) && b != nil && rootb != nil && holds(addr(rootb.topHashMutex)) && wfslice(bentries)
+//@   loop for.loop: invariant idx: mapInv(m) && 0 <= i && i <= 3 && b != nil && rootb != nil && holds(addr(rootb.topHashMutex)) && wfslice(bentries)
+//@   loop rangeindex.loop.1: invariant inner: mapInv(m) && nheld() == 0 && wfslice(bentries)
 //@   oncall f: {C13,C07} visitor.unlocked: nheld() == 0
 
 //@ func (*Map).Clear
@@ -505,10 +505,17 @@ package xsync
 //@   ensures mapInv(m)
 
 //@ func (*MapOf[K, V]).Range
-//@   trusted interface contract (builtin-map semantics); discharged by the table-layer proofs when those are enabled
-//@   requires m != nil && mapInv(m)
+//@   serves C13 C14
+//@   requires m != nil && mapInv(m) && f != nil
+//@   requires private tblShapeOf(tabOf(m))
 //@   reenters mapInv(m)
 //@   iterates f over view(m)
+//@   modifies allmem, allghost
+//@   loop rangeindex.loop.0: invariant outer: mapInv(m) && nheld() == 0 && wfslice(bentries) && len(bentries) == 0
+//@   loop for.body: invariant cursor: mapInv(m) && b != nil && rootb != nil && holds(addr(rootb.mu)) && wfslice(bentries)
+//@   loop for.loop: invariant idx: mapInv(m) && 0 <= i && i <= 5 && b != nil && rootb != nil && holds(addr(rootb.mu)) && wfslice(bentries)
+//@   loop rangeindex.loop.1: invariant inner: mapInv(m) && nheld() == 0 && wfslice(bentries)
+//@   oncall f: {C13,C07} visitor.unlocked: nheld() == 0
 
 //@ func (*MapOf[K, V]).Clear
 //@   trusted interface contract (builtin-map semantics); discharged by the table-layer proofs when those are enabled
@@ -519,7 +526,11 @@ package xsync
 //@   ensures mapInv(m)
 
 //@ func (*MapOf[K, V]).Size
-//@   trusted interface contract (builtin-map semantics); discharged by the table-layer proofs when those are enabled
+//@   serves C13 C14
 //@   requires m != nil && mapInv(m)
-//@   ensures {C08} post.value: res0 == card(view(m))
+//@   requires private tblShapeOf(tabOf(m))
+//@   loop rangeindex.loop: invariant idx: rangeindex >= -1
+//@   ensures assumed {C08} post.value: res0 == card(view(m))
+//@   ensures {C16} effect.nolock: nacquire() == 0 && nblocking() == 0
+
 //@ -- twin-end MapOf
